@@ -105,9 +105,11 @@ class PeekCheck:
             return self.canon(t[2][0], ps, final, post_call_ok)        # a clone is the same value
         # value identical to the last store into some field
         ut = unclone(t)
-        for (fp, v), tr in ps.known.items():
-            if v == ps.final_version(fp[0]) and ut[0] != 'const' and unclone(tr) == ut:
-                return ('SF', fp)
+        hits = sorted(fp for (fp, v), tr in ps.known.items() if v == ps.final_version(fp[0]) and ut[0] != 'const' and unclone(tr) == ut)
+        if len(hits) == 1:
+            return ('SF', hits[0])
+        if hits:
+            return ('SFANY', tuple(hits))       # the same value was stored into several fields: it is the final value of each of them
         if k == 'sf':
             fp, v = t[1], t[2]
             if not fp:
@@ -199,7 +201,7 @@ class PeekCheck:
             if not ps.returns or ps.ret is None:
                 continue
             R = self.canon(ps.ret, ps, final=True)
-            if P is not None and R == P:
+            if P is not None and same_tree(R, P):
                 continue
             if R[0] == 'peek' and R[1] == adt and R[2] == ():
                 continue    # returns self.peek() evaluated last (peek branches: kept opaque)
@@ -208,6 +210,17 @@ class PeekCheck:
             return True
         R, ps = bad[0]
         return ('differs', R, P)
+
+
+def same_tree(r, p):
+    """r == p where an ('SFANY', fields) leaf of r equals ('SF', f) for any of its fields"""
+    if r == p:
+        return True
+    if isinstance(r, tuple) and r and r[0] == 'SFANY':
+        return isinstance(p, tuple) and p and p[0] == 'SF' and p[1] in r[1]
+    if isinstance(r, tuple) and isinstance(p, tuple) and len(r) == len(p):
+        return all(same_tree(x, y) for x, y in zip(r, p))
+    return False
 
 
 def s11_peek_next_agreement(ctx):
